@@ -520,3 +520,40 @@ def lw_register(ctx):
         else:
             out.append(ok('LW3', key, 'every path to Poll::Pending stores context.waker() in %s' % W, fn=fname))
     return out
+
+
+def lw_recheck(ctx):
+    """A hand-made wait (a poll function that registers the task's waker in an AtomicWaker, or stores it in a slot of its own, and answers
+    Pending) re-reads its condition *after* the registration: a completion that lands between the first test and the registration has
+    nobody to wake, and without the second test the task sleeps for ever.  The pinned tree has no such wait (its hand-shakes are oneshot
+    channels and mutex-protected slots, which LW1-LW4 cover): the rule exists for the day one is written."""
+    from .ordq import calls
+    F = ctx.F
+    out = []
+    n = 0
+    for fn in F.crate_fns():
+        regs = [(bb, t) for bb, t in fn.calls() if (t['func'].get('fn') or '').endswith('AtomicWaker::register') and not fn.blocks[bb]['cleanup']]
+        if not regs:
+            continue
+        pend = []
+        for bb, b in enumerate(fn.blocks):
+            if b['cleanup']:
+                continue
+            for s_ in b['stmts']:
+                if s_['k'] == 'assign' and s_['rv']['k'] == 'agg' and s_['rv'].get('adt') == 'core::task::poll::Poll' and s_['rv'].get('variant') == 'Pending':
+                    pend.append(bb)
+        loads = set(bb for bb, t in fn.calls() if not fn.blocks[bb]['cleanup'] and (t['func'].get('fn') or '').split('::')[-1] in ('load', 'swap', 'compare_exchange', 'fetch_or', 'fetch_and', 'lock', 'try_lock', 'take', 'is_some', 'is_none', 'try_recv', 'poll_unpin', 'poll'))
+        for bb, t in regs:
+            n += 1
+            key = '%s|recheck-after-register' % short(fn.root or fn.name)
+            tg = t['target']
+            if tg is None or not pend:
+                out.append(undecided('LW-recheck', key, 'the registering function never answers Pending: shape not recognised'))
+            elif fn.must_pass(tg, set(pend), loads - {bb}):
+                out.append(ok('LW-recheck', key, 'the condition is read again between registering the waker and answering Pending', loc=fn.loc(bb), fn=fn.name))
+            else:
+                out.append(bad('LW-recheck', key, 'the waker is registered and Pending is answered without reading the condition again: a completion that happened between the first test and the registration woke nobody, '
+                               'and nothing will wake this task later', loc=fn.loc(bb), fn=fn.name))
+    if n == 0:
+        out.append(ok('LW-recheck', 'none', 'the crate has no hand-made AtomicWaker wait'))
+    return out
